@@ -54,7 +54,26 @@ def regexes_for(rnd, mods):
     """(kind, pattern) drawn from the graph's own names."""
     names = [m for m in mods if m != "r"]
     m = rnd.choice(names)
-    k = rnd.choice(["anchored", "prefix", "alt", "class", "suffix", "with_subs", "nomatch", "leaf", "inner", "alt_ungrouped", "alt_ungrouped"])
+    k = rnd.choice(["anchored", "prefix", "alt", "class", "suffix", "with_subs", "nomatch", "leaf", "inner", "alt_ungrouped", "alt_ungrouped", "optional", "optional_mid", "plus", "dot_any", "icase", "lookahead", "unicode_class"])
+    if k == "optional":
+        # a quantifier directly after a literal: matches the name with and without its last character
+        return k, re.escape(m) + "?" + rnd.choice(["$", "", r"(\..*)?$"])
+    if k == "optional_mid":
+        i = rnd.randint(3, len(m))
+        return k, re.escape(m[:i]) + "?" + re.escape(m[i:]) + rnd.choice(["$", ""])
+    if k == "plus":
+        i = rnd.randint(3, len(m))
+        return k, re.escape(m[:i]) + rnd.choice(["+", "*", "{1,2}"]) + re.escape(m[i:]) + "$"
+    if k == "dot_any":
+        return k, m + "$"  # unescaped dots match any character
+    if k == "icase":
+        return k, "(?i)" + re.escape(m.swapcase()) + "$"
+    if k == "lookahead":
+        p = m.rsplit(".", 1)
+        return k, re.escape(p[0]) + r"\.(?!" + re.escape(p[-1][:1]) + r")\w+$"
+    if k == "unicode_class":
+        p = m.rsplit(".", 1)
+        return k, re.escape(p[0]) + r"\.\w+$"
     if k == "anchored":
         return k, "^" + re.escape(m) + "$"
     if k == "prefix":
@@ -175,8 +194,14 @@ def law_partial(rnd, ev, mods, imps, acc, forced=None):
 
     names = [m for m in mods if m != "r"]
     m = rnd.choice(names)
+    cased = [x for x in names if x.rsplit(".", 1)[-1].lower() != x.rsplit(".", 1)[-1]]
+    if cased and rnd.random() < 0.3:
+        m = rnd.choice(cased)  # names with upper-case letters (partial names are case-sensitive)
     shape = rnd.choice(["text", "*text", "text*", "*text*"])
     frag = m if shape == "text" else m[rnd.randint(0, len(m) - 1) :] if shape == "*text" else m[: rnd.randint(1, len(m))] if shape == "text*" else m[rnd.randint(0, len(m) // 2) : rnd.randint(len(m) // 2 + 1, len(m))]
+    if rnd.random() < 0.15:
+        frag = frag.swapcase()  # the same text in the other case: matches other modules, or nothing at all
+        acc.count("partial_names_in_other_case")
     pat = {"text": frag, "*text": "*" + frag, "text*": frag + "*", "*text*": "*" + frag + "*"}[shape]
     verb, d, exc = _verb_dir(rnd)
     other = _other(rnd, mods, "named")
